@@ -147,8 +147,36 @@ async def scenario(prog, backend):
         kind, who = op[0], op[1]
         c = clients[who]
         src = selected[who]
-        if kind == 'select':
-            r = await c.cmd(b'SELECT ' + op[2])
+        if kind == 'drop':
+            # a delivery agent puts a file into new/ of the maildir (no ':2,' info suffix), behind the server's back
+            import os
+            ntok[0] += 1
+            tok = 'tok%dx' % ntok[0]
+            sub = '' if op[2] == b'INBOX' else (('.' if backend == 'maildir++' else '') + op[2].decode())
+            path = os.path.join(w.base, 'alice', sub, 'new', '1600000000.M%dP1.elsewhere' % ntok[0])
+            with open(path, 'wb') as f:
+                f.write(b'X-Token: ' + tok.encode() + b'\nSubject: s\n\nbody ' + tok.encode() + b'\n')
+            after = await dump(o, errors, where)
+            orc.observe(after, errors, where, fail)
+            if tok not in after[op[2]]["msgs"].values():
+                fail('harness', f'{where}: the dropped file is not listed: {after[op[2]]}')
+            before = after
+            sig.append(('drop',))
+            continue
+        if kind == 'check':
+            # housekeeping (CHECK) and polling are not mailbox changes: every message keeps its UID
+            await c.cmd(b'CHECK')
+            await c.cmd(b'NOOP')
+            after = await dump(o, errors, where)
+            orc.observe(after, errors, where, fail)
+            for bx in after:
+                if bx in before and after[bx]['msgs'] != before[bx]['msgs']:
+                    fail('housekeeping_keeps_every_uid', f'{where}: CHECK changed {bx!r}: {before[bx]["msgs"]} -> {after[bx]["msgs"]}')
+            before = after
+            sig.append(('check',))
+            continue
+        if kind in ('select', 'examine'):
+            r = await c.cmd((b'SELECT ' if kind == 'select' else b'EXAMINE ') + op[2])
             selected[who] = op[2]
             sig.append(('select',))
             continue
@@ -279,6 +307,11 @@ def bounded_uids(label, backend='dict'):
         progs = programs(tier, seed)
         if backend != 'dict':
             progs = progs[: (140 if tier == 'quick' else 1200)]
+            # external deliveries and housekeeping (maildir only)
+            for sel in ('select', 'examine'):
+                for bx in BOXES:
+                    progs.insert(0, ((sel, 'a', bx), ('drop', 'a', bx), ('noop', 'a'), ('check', 'a'), ('noop', 'b'), ('append', 'b', bx),
+                                     ('check', 'b'), ('drop', 'a', bx), ('check', 'a')))
         items = [(p, backend) for p in progs]
         with mp.get_context('fork').Pool(16) as pool:
             for args, errs, sig in pool.imap_unordered(_worker, items, chunksize=4):
